@@ -372,7 +372,7 @@ static void check_value_store(cfg_t *ctx, int stored, struct pstate *ps)
 	}
 #endif
 #ifdef CHK_C15
-	if (pre_pending != NULL && PSTATE == 2) {
+	if (pre_pending != NULL && (PSTATE == 2 || PSTATE == 3)) { /* 3: a list assigned one value without braces */
 		V_ASSERT(O->comment != NULL && strcmp(O->comment, pre_pending_txt) == 0, "[C15] the pending comment becomes the option's annotation");
 		V_ASSERT(*ps->comment == NULL, "[C15] an attached annotation is consumed");
 	}
